@@ -170,61 +170,81 @@ def run(chk):
                        "INIT Init\nNEXT Next\nCHECK_DEADLOCK FALSE\nINVARIANT Dump\n" % maxn)
     res = tlc.run_tlc("PhaseGen", cfg=cfg, timeout=1800)
     chk.add_tlc(res)
-    cases = [phase_case(r) for r in res.json_lines("GEN")]
+    rows = [(r, None) for r in res.json_lines("GEN")]
+    del res
     # one statement more over a reduced catalogue (guards true/c/not c, no loops, no-ops, every dependency
     # set), each under two random relabellings of the ids (the lowering sorts ids)
     cfg2 = tlc.temp_cfg("CONSTANTS\n MaxN = %d\n NGuards = 3\n NLoops = 1\n FullUpTo = %d\n"
                         "INIT Init\nNEXT Next\nCHECK_DEADLOCK FALSE\nINVARIANT Dump\n" % (maxn + 1, maxn + 1))
     res2 = tlc.run_tlc("PhaseGen", cfg=cfg2, timeout=1800)
     chk.add_tlc(res2)
-    for r in res2.json_lines("GEN"):
-        if len(r) != maxn + 1:
-            continue
+    big = [r for r in res2.json_lines("GEN") if len(r) == maxn + 1]
+    del res2
+    n_big = len(big)
+    if len(big) > 400000:                       # thorough tier: the five-statement phases are sampled
+        big = rng.sample(big, 400000)
+    for r in big:
         for _ in range(2):
-            c = phase_case(r)
             lab = list(range(1, len(r) + 1))
             rng.shuffle(lab)
-            c["labels"] = lab
-            cases.append(c)
-    n_gen = len(cases)
+            rows.append((r, lab))
+    del big
+    n_gen = len(rows)
     chk.stage("phasegen")
-    jobs = [(c, presentations(len(c["stmts"]), rng, 6 if len(c["stmts"]) <= 3 else 4)) for c in cases]
-    import multiprocessing
-    with multiprocessing.Pool(NCPU) as pool:
-        for c, (ts, err) in zip(cases, pool.starmap(lower_case, jobs, chunksize=200)):
-            c["trees"], c["err"] = ts, err
-    chk.stage("lower")
-    # another hash seed: set iteration order depends on the seed, not on the list order
     seeds = [1] if chk.quick else [1, 2, 3]
-    for sd in seeds:
-        for c, t in zip(cases, other_seed_trees(cases, sd)):
-            if t is not None:
-                c["trees"].append(t)
-    chk.stage("other_seeds")
-    cases += builder_cases(chk, rng)
+    import multiprocessing
+    n_trees = nontrivial = n_bad = 0
+    samples = []
+    CHUNK = 150000                              # bounds the memory of the thorough tier
+    for lo in range(0, len(rows), CHUNK):
+        cases = []
+        for r, lab in rows[lo:lo + CHUNK]:
+            c = phase_case(r)
+            if lab is not None:
+                c["labels"] = lab
+            cases.append(c)
+        jobs = [(c, presentations(len(c["stmts"]), rng, 6 if len(c["stmts"]) <= 3 else 4)) for c in cases]
+        with multiprocessing.Pool(NCPU) as pool:
+            for c, (ts, err) in zip(cases, pool.starmap(lower_case, jobs, chunksize=200)):
+                c["trees"], c["err"] = ts, err
+        del jobs
+        # another hash seed: set iteration order depends on the seed, not on the list order
+        for sd in seeds:
+            for c, t in zip(cases, other_seed_trees(cases, sd)):
+                if t is not None:
+                    c["trees"].append(t)
+        n_bad += len(judge(chk, cases))
+        n_trees += sum(len(c["trees"]) for c in cases)
+        nontrivial += sum(1 for c in cases if len(c["stmts"]) >= 2 and any(s["deps"] for s in c["stmts"]))
+        samples += sample([{"stmts": c["stmts"], "tree": trees.show(c["trees"][0])} for c in cases if len(c["stmts"]) >= 3], 2)
+        tlc.cleanup()
+    chk.stage("lower_and_judge")
+    cases = builder_cases(chk, rng)
+    n_builder = len(cases)
     chk.stage("builder_cases")
-    bad = judge(chk, cases)
+    n_bad += len(judge(chk, cases))
     chk.stage("tlc_judge")
-    n_trees = sum(len(c["trees"]) for c in cases)
-    nontrivial = sum(1 for c in cases if len(c["stmts"]) >= 2 and any(s["deps"] for s in c["stmts"]))
+    n_trees += sum(len(c["trees"]) for c in cases)
+    nontrivial += sum(1 for c in cases if len(c["stmts"]) >= 2 and any(s["deps"] for s in c["stmts"]))
     chk.coverage.update({
         "evaluations": n_trees,
         "distinct_nontrivial": nontrivial,
         "rule": "phases = all PhaseGen behaviours with <= %d statements (every dependency set over earlier "
-                "statements, 4 guards, 3 loop nests, no-ops) + phases built by the real CodeBuilder for "
+                "statements, 4 guards, 3 loop nests, no-ops) + %d-statement phases over a reduced catalogue under two "
+                "relabellings (%d of %d) + phases built by the real CodeBuilder for "
                 "ProgGen programs; each lowered in permuted list order, as frozenset and under other hash "
-                "seeds; non-trivial = >= 2 statements and at least one edge" % maxn,
+                "seeds; non-trivial = >= 2 statements and at least one edge" % (maxn, maxn + 1, min(n_big, 400000), n_big),
         "exhaustive": True,
         "exhaustive_scope": "all PhaseGen phases up to %d statements x all guard valuations" % maxn,
-        "phases_generated": n_gen, "phases_from_builder": len(cases) - n_gen,
+        "phases_generated": n_gen, "phases_from_builder": n_builder,
         "hash_seeds": [0] + seeds,
-        "cases_with_violation": len(bad),
+        "cases_with_violation": n_bad,
         "traces_validated_against_impl": n_trees,
-        "samples": sample([{"stmts": c["stmts"], "tree": trees.show(c["trees"][0])} for c in cases
-                           if len(c["stmts"]) >= 3], 4),
+        "samples": samples[:4],
     })
     chk.assumptions += ["guard flags keep their value during the pass through the tree; loop bounds are "
-                        "compared as expressions, trip counts are not executed here (C01/C03 do that)"]
+                        "compared as expressions; every loop is run for two symbolic iterations (trip counts are "
+                        "executed by C01/C03)"]
 
 
 def replay(chk, rep):
